@@ -145,7 +145,7 @@ pub fn run(ctx: &Ctx) {
             ctx.pass();
         }
     }
-    // ---- longer sequences of pseudo-random addresses (4..=7 members, incl. repeated members and members sharing long prefixes)
+    // ---- longer sequences of pseudo-random addresses (4..=17 members, incl. repeated members and members sharing long prefixes)
     let count = if ctx.thorough { 3000u64 } else { 400 };
     for seed in 1..=count {
         let id = format!("random-addrs/{seed}");
@@ -153,7 +153,7 @@ pub fn run(ctx: &Ctx) {
             continue;
         }
         let mut s = seed.wrapping_mul(0x9E3779B97F4A7C15) | 1;
-        let n = 4 + (rnd(&mut s) % 4) as usize;
+        let n = 4 + (rnd(&mut s) % 14) as usize;
         let mut seq: Vec<ContentAddress> = Vec::new();
         for i in 0..n {
             let mut a = [0u8; 32];
